@@ -139,46 +139,7 @@ theorem composite_limits_spec (gs : List Glyph) (rank : Nat → Nat) (fuel : Nat
   intro g composites
   have hlen : g.length = gs.length := by simp [g]
   have hfuel' : ∀ gid, gid < g.length → rank gid < fuel := fun gid h => hfuel gid (by omega)
-  -- the initial state satisfies the invariant
-  have hI : Inv g (specLimits g fuel) ((maxBuilderOf gs).glyphInfo) {} := by
-    rw [maxBuilderOf_glyphInfo]
-    have hget : ∀ (gid : Nat) (gi : GlyphInfo), (gs.map (fun x => infoOfShape x.shape))[gid]? = some gi →
-        ∃ sh, g[gid]? = some sh ∧ gi = infoOfShape sh := by
-      intro gid gi h
-      simp only [List.getElem?_map, Option.map_eq_some_iff] at h
-      obtain ⟨x, hx, rfl⟩ := h
-      exact ⟨x.shape, by simp [g, hx], rfl⟩
-    refine ⟨by simp [g], ?_, ?_, ?_, ?_, ?_⟩
-    · intro gid gi h
-      obtain ⟨sh, hsh, rfl⟩ := hget gid gi h
-      exact ⟨sh, hsh, rfl⟩
-    · intro gid gi l h hl
-      obtain ⟨sh, hsh, rfl⟩ := hget gid gi h
-      have hlt : gid < g.length := (List.getElem?_eq_some_iff.1 hsh).1
-      have hf := hfuel' gid hlt
-      obtain ⟨f, rfl⟩ : ∃ f, fuel = f + 1 := ⟨fuel - 1, by omega⟩
-      cases sh with
-      | empty =>
-        simp only [infoOfShape, Option.some.injEq] at hl
-        subst hl
-        simp [specLimits, specPoints, specContours, specDepth, hsh]
-      | simple cs =>
-        simp only [infoOfShape, Option.some.injEq] at hl
-        subst hl
-        simp [specLimits, specPoints, specContours, specDepth, hsh]
-      | composite comps => simp [infoOfShape] at hl
-    · intro gid gi h hl
-      obtain ⟨sh, hsh, rfl⟩ := hget gid gi h
-      cases sh with
-      | empty => simp [infoOfShape] at hl
-      | simple cs => simp [infoOfShape] at hl
-      | composite comps => exact (isComposite_iff g gid).2 ⟨comps, hsh⟩
-    · intro gid gi h hc hs
-      obtain ⟨sh, hsh, rfl⟩ := hget gid gi h
-      obtain ⟨comps, hcomps⟩ := (isComposite_iff g gid).1 hc
-      rw [hsh] at hcomps; cases hcomps
-      simp [infoOfShape] at hs
-    · exact ⟨Or.inl rfl, Or.inl rfl, Or.inl rfl⟩
+  have hI := Inv_initial gs rank fuel hfuel
   have hvalid : ∀ gid ∈ pending, isComposite g gid = true := fun gid h => ((hpending gid).1 h).2
   have hunk : ∀ (j : Nat) (gi : GlyphInfo), ((maxBuilderOf gs).glyphInfo)[j]? = some gi → gi.limits = none → j ∈ pending := by
     intro j gi hj hn
